@@ -31,7 +31,7 @@ MANIFEST = {
     'technique': 'bounded-exhaustive enumeration of operation histories on three applications in one process (nested calls, '
                  'Request.copy, object construction inside handlers) replayed on a fresh import, plus exploration of all '
                  'two-thread schedules with bounded preemptions; oracle = handler observations and responses equal the lone run',
-    'text': 'All histories up to depth 2 (quick) / 3 (thorough) over 35 operations, and up to depth 3 / 4 over the 14 error / creation operations, on applications A, B and the default '
+    'text': 'All histories up to depth 2 (quick) / 3 (thorough) over 39 operations, and up to depth 3 / 4 over the 14 error / creation operations, on applications A, B and the default '
             'application, and all schedules with <=1 (quick) / <=2 (thorough) preemptions of A- and B-requests on two threads, '
             'are executed; each observation of app.request / app.response must show the application\'s own request.',
     'note': 'Bounds: 3 applications, history depth and preemption bound as stated. Trusted: vf/sched.py, the fresh-import loader.',
@@ -39,7 +39,8 @@ MANIFEST = {
 
 HERE = os.path.abspath(__file__)
 APPS = ['A', 'B', 'D']
-NESTED = ['none', 'call', 'copy', 'request', 'response', 'ombott']
+NESTED = ['none', 'call', 'copy', 'request', 'response', 'ombott', 'mutq']
+QS = 'tok=1&k=v&k=w'        # the same query string for every request of every application
 
 
 def menu():
@@ -55,6 +56,11 @@ def menu():
     m.append(('create', None, None, None))
     for x in APPS:
         m.append(('outside', x, 'copy', None))
+    # the default application's handler ends with redirect() (which works on the module-level request / response),
+    # optionally after a nested call to another application
+    m.append(('serve', 'D', 'redir', None))
+    for y in ('A', 'B'):
+        m.append(('serve', 'D', 'redir', y))
     return m + menu_errors()
 
 
@@ -90,7 +96,8 @@ class World:
         app = self.apps[name]
         rq, rs = app.request, app.response
         try:
-            o = (rq.path, rq.query_string, rq.method, rq.headers.get('X-Req'), rq.get_cookie('sid'),
+            o = (rq.path, tuple(sorted((k, tuple(v) if isinstance(v, list) else v) for k, v in rq.query.items())), rq.method,
+                 rq.headers.get('X-Req'), rq.get_cookie('sid'),
                  rs.status_code, tuple(sorted(rs.headers.dict.items())), tuple(sorted(rs._cookies.keys())) if rs._cookies else ())
         except Exception as e:   # noqa
             o = ('EXC', type(e).__name__, str(e)[:80])
@@ -106,9 +113,18 @@ class World:
             app.response.set_cookie('c' + name, rid)
             w.snap(name, rid, 'p2')
             op = w.pending.pop((name, rid), None)
-            if op:
+            if op and op[0] != 'redir':
                 w.nested(name, op)
+            if op and op[0] == 'redir':
+                if op[1]:
+                    w.request(op[1], None)
+                w.snap(name, rid, 'p3')
+                w.om.redirect('/next/' + rid)
             w.snap(name, rid, 'p3')
+            if op and op[0] == 'mutq':
+                # a handler may edit its own parsed query; nobody else must notice
+                app.request.query.pop('tok', None)
+                app.request.query['k'].append('edited-by-' + name)
             return f'{name}:{rid}'
         app.route('/h/<rid>', 'GET', handler)
 
@@ -133,6 +149,8 @@ class World:
             r.headers['X-Other'] = '1'
         elif kind == 'ombott':
             om.Ombott()
+        elif kind == 'mutq':
+            pass
 
     def request(self, name, op, kind='plain'):
         self.counter += 1
@@ -147,7 +165,7 @@ class World:
             return rid, (c.status, tuple((str(a), str(b)) for a, b in (c.headers or [])), c.body if c.escaped is None else repr(c.escaped).encode())
         if op:
             self.pending[(name, rid)] = op
-        env = wsgi.environ('GET', f'/h/{rid}', qs=f'app={name}&r={rid}', headers={'X-Req': name + rid, 'Cookie': 'sid=' + name + rid})
+        env = wsgi.environ('GET', f'/h/{rid}', qs=QS, headers={'X-Req': name + rid, 'Cookie': 'sid=' + name + rid, 'Host': name.lower() + '.test'})
         c = wsgi.call(self.apps[name], env)
         return rid, (c.status, tuple((str(a), str(b)) for a, b in (c.headers or [])), c.body if c.escaped is None else repr(c.escaped).encode())
 
@@ -174,8 +192,7 @@ class World:
 
 
 def expected_obs(name, rid):
-    base = (f'/h/{rid}', f'app={name}&r={rid}', 'GET', name + rid, 'sid=' + name + rid)
-    base = base[:4] + (name + rid,)
+    base = (f'/h/{rid}', (('k', ('v', 'w')), ('tok', '1')), 'GET', name + rid, name + rid)
     p1 = base + (200, (), ())
     p2 = base + (201, (('X-App', name + rid),), ('c' + name,))
     return {'p1': p1, 'p2': p2, 'p3': p2}
@@ -229,7 +246,11 @@ def run_history(hist):
     v = judge_world(w, results)
     if v is None:
         for name, (rid, resp), k in served:
-            exp = expected_response(name, rid) if k not in ('badj', 'badh', 'big') else lone_response(name, k, rid)
+            if k == 'redir':
+                exp = ('303 See Other', (('X-App', name + rid), ('Location', f'http://{name.lower()}.test/next/{rid}'), ('Content-Length', '0'),
+                                         ('Content-Type', 'text/html; charset=UTF-8'), ('Set-Cookie', f'c{name}={rid}')), b'')
+            else:
+                exp = expected_response(name, rid) if k not in ('badj', 'badh', 'big') else lone_response(name, k, rid)
             if resp != exp:
                 v = ('response', f'application {name}, request {rid} answered {resp!r}; alone it answers {exp!r}')
                 break
@@ -245,7 +266,7 @@ def src_prefix():
 def run_threads(pair, prefix):
     w = World()
     names = list(pair)
-    progs = [(lambda n=n: w.request(n, None)) for n in names]
+    progs = [(lambda n=n: w.request(n, ('redir', None) if n == 'D' else (('mutq', None) if n == 'B' else None))) for n in names]
     sp = src_prefix()
     x = Scheduler(progs, prefix, lambda fn: fn.startswith(sp) or fn == HERE).run()
     x.results['world'] = w
@@ -264,6 +285,9 @@ def judge_threads(pair, x):
     for t, name in enumerate(pair):
         rid, resp = x.results[t]
         exp = expected_response(name, rid)
+        if name == 'D':
+            exp = ('303 See Other', (('X-App', name + rid), ('Location', f'http://{name.lower()}.test/next/{rid}'), ('Content-Length', '0'),
+                                     ('Content-Type', 'text/html; charset=UTF-8'), ('Set-Cookie', f'c{name}={rid}')), b'')
         if resp != exp:
             return 'response', f'application {name}, request {rid} answered {resp!r}; alone it answers {exp!r}'
     return None
@@ -283,7 +307,7 @@ def shards(tier, seed):
         for j in range(len(ms)):
             out.append(('hist', (i, j), depth if tier == 'quick' else 4, 'small'))
     bound = 1 if tier == 'quick' else 2
-    for pair in (('A', 'B'), ('A', 'D'), ('A', 'A')):
+    for pair in (('A', 'B'), ('A', 'D'), ('B', 'D'), ('A', 'A')):
         for start in (0, 1):
             npts = len(run_threads(pair, (start,)).points)
             k = 4 if tier == 'quick' else 24
@@ -297,7 +321,7 @@ def shards(tier, seed):
 
 def bounds(tier, seed):
     return {'applications': APPS, 'menu': len(menu()), 'history_depth': '2 over the full menu, 3 over the 14-operation error/creation menu' if tier == 'quick' else '3 over the full menu, 4 over the error/creation menu',
-            'thread_pairs': ['A+B', 'A+D', 'A+A'], 'preemption_bound': 1 if tier == 'quick' else 2}
+            'thread_pairs': ['A+B', 'A+D', 'B+D', 'A+A'], 'preemption_bound': 1 if tier == 'quick' else 2}
 
 
 FLOORS = {'histories': 3000, 'nested_ops': 2000, 'schedules': 1000}
